@@ -536,7 +536,58 @@ def _owned(m: Module, f: Func | None, recv: ast.AST | None, _seen: set | None = 
     return False, f"{type(recv).__name__}"
 
 
-RULES = [rule_b, rule_a, rule_c]
+def _copy_default(fn: ast.FunctionDef):
+    pos = fn.args.args
+    defaults = [None] * (len(pos) - len(fn.args.defaults)) + list(fn.args.defaults)
+    for a, d in list(zip(pos, defaults)) + list(zip(fn.args.kwonlyargs, fn.args.kw_defaults)):
+        if a.arg == "copy":
+            return d.value if isinstance(d, ast.Constant) else "?"
+    return "absent"
+
+
+def _same_name_calls(tree: ast.AST) -> list[tuple[ast.FunctionDef, ast.Call]]:
+    out = []
+    for fn in ast.walk(tree):
+        if isinstance(fn, ast.FunctionDef) and _copy_default(fn) != "absent":
+            for c in ast.walk(fn):
+                if isinstance(c, ast.Call) and (call_name(c) or "").split(".")[-1] == fn.name:
+                    out.append((fn, c))
+    return out
+
+
+def rule_d(ctx: Ctx) -> None:
+    ctx.rule("C09.d", "the copy flag is threaded through same-name delegation: a function with a `copy` parameter that calls a function of its own name — recursion over the parts of "
+                      "its argument (convert over list / dict / struct members), a method delegating to the module-level builder — states `copy` at that call whenever a function of "
+                      "that name defaults to copy=False: an omitted flag adopts the caller's nodes for that part only")
+    probe = ast.parse("def conv(v, copy=False):\n    return M(keys=[conv(k, copy=copy) for k in v], values=[conv(x) for x in v.values()])\n")
+    ctx.require(sum(1 for _, c in _same_name_calls(probe) if kwarg(c, "copy") is None) == 1, "internal: C09.d matcher no longer recognises its positive control")
+    defaults: dict[str, set] = {}
+    for m in ctx.repo.modules.values():
+        for fn in m.of_type(ast.FunctionDef):
+            d = _copy_default(fn)
+            if d != "absent":
+                defaults.setdefault(fn.name, set()).add(d)
+    n = 0
+    for m in ctx.repo.modules.values():
+        for fn, c in _same_name_calls(m.tree):
+            n += 1
+            f = m.enclosing_func(c)
+            where = f.key if f else f"{m.name}:{fn.name}"
+            inst = f"{where}|{norm(c, 90)}"
+            kw = kwarg(c, "copy")
+            positional = any(isinstance(a, ast.Name) and a.id == "copy" for a in c.args) or any(k.arg is None for k in c.keywords)
+            if kw is not None or positional:
+                ctx.ok(inst, {"call": norm(c, 80), "copy": norm(kw) if kw is not None else "positional / **kwargs"})
+            elif False not in defaults.get(fn.name, set()) and None not in defaults.get(fn.name, set()):
+                ctx.ok(inst, {"call": norm(c, 80), "copy": "omitted; every function of this name copies by default"})
+            else:
+                ctx.fail(m, c, where, c, f"`{norm(c, 70)}` inside `{fn.name}(…, copy)` does not pass the copy flag on, and `{fn.name}` defaults to copy=False: with copy=True the result "
+                                         f"adopts the caller's nodes for this part (they are re-parented into the new tree, edits to either side show up in the other)")
+    ctx.count("same_name_calls", n)
+    ctx.min_instances("same_name_calls", n, 10)
+
+
+RULES = [rule_b, rule_a, rule_c, rule_d]
 EXPLANATION = (
     "Ownership analysis of the public tree API: for each of the ~100 functions that take a copy flag every use of a borrowed tree "
     "(self / parameters handed to copy-aware callees) is classified as read, copy, threaded pass-on, or a mutating/embedding use; the "
